@@ -378,30 +378,54 @@ Proof.
   destruct (new_merge _ _); reflexivity.
 Qed.
 
-(* the run-length arithmetic of the code is one such oracle whenever a run encodes to
-   at least one byte per row ... *)
+(* the run-length arithmetic of the code is such an oracle, whatever the encoded sizes *)
 Lemma real_next_ok target batch size cur :
-  (1 <= cur)%nat -> 1 <= batch -> Z.of_nat cur <= size ->
+  (1 <= cur)%nat -> 1 <= batch ->
   exists m, real_next target batch size cur = Some m /\ (1 <= m)%nat.
 Proof.
-  intros Hc Hb Hs. unfold real_next.
-  assert (Hq : 1 <= Z.quot size (Z.of_nat cur)).
-  { rewrite Z.quot_div_nonneg by lia. apply Z.div_le_lower_bound; lia. }
-  destruct (Z.quot size (Z.of_nat cur) =? 0) eqn:E; [apply Z.eqb_eq in E; lia|].
-  set (t0 := Z.quot target (Z.quot size (Z.of_nat cur))).
+  intros Hc Hb. unfold real_next.
+  destruct (Z.of_nat cur =? 0) eqn:E0; [apply Z.eqb_eq in E0; lia|].
+  set (bpr := if Z.quot size (Z.of_nat cur) <? 1 then 1 else Z.quot size (Z.of_nat cur)).
+  set (t0 := Z.quot target bpr).
   set (t := if t0 <? batch then batch else t0).
   assert (Ht : 1 <= t) by (unfold t; destruct (t0 <? batch) eqn:E2; [lia | apply Z.ltb_ge in E2; lia]).
   destruct (20 * Z.abs (Z.of_nat cur - t) >? t); eexists; split; eauto. lia.
 Qed.
 
 Lemma real_oracle_ok target batch (size : nat -> nat -> Z) :
-  1 <= batch -> (forall i n, (1 <= n)%nat -> Z.of_nat n <= size i n) ->
-  oracle_ok (fun i n => real_next target batch (size i n) n).
-Proof. intros Hb Hs i n Hn. apply real_next_ok; auto. Qed.
+  1 <= batch -> oracle_ok (fun i n => real_next target batch (size i n) n).
+Proof. intros Hb i n Hn. apply real_next_ok; auto. Qed.
 
-(* ... and panics (integer divide by zero) when it encodes to less *)
-Lemma real_next_div_zero target batch size cur :
-  0 <= size < Z.of_nat cur -> real_next target batch size cur = None.
+(* without the clamp it panicked (integer divide by zero) whenever a run encoded to
+   fewer bytes than it had rows *)
+Lemma real_next_unclamped_div_zero target batch size cur :
+  0 <= size < Z.of_nat cur -> real_next_unclamped target batch size cur = None.
 Proof.
-  intros H. unfold real_next. rewrite Z.quot_small by lia. reflexivity.
+  intros H. unfold real_next_unclamped. rewrite Z.quot_small by lia. reflexivity.
+Qed.
+
+(* where the old arithmetic did not panic the two agree *)
+Lemma real_next_unclamped_agrees target batch size cur :
+  (1 <= cur)%nat -> Z.of_nat cur <= size ->
+  real_next_unclamped target batch size cur = real_next target batch size cur.
+Proof.
+  intros Hc Hs. unfold real_next, real_next_unclamped.
+  assert (Hq : 1 <= Z.quot size (Z.of_nat cur)).
+  { rewrite Z.quot_div_nonneg by lia. apply Z.div_le_lower_bound; lia. }
+  destruct (Z.of_nat cur =? 0) eqn:E0; [apply Z.eqb_eq in E0; lia|].
+  destruct (Z.quot size (Z.of_nat cur) =? 0) eqn:E; [apply Z.eqb_eq in E; lia|].
+  destruct (Z.quot size (Z.of_nat cur) <? 1) eqn:E1; [apply Z.ltb_lt in E1; lia|].
+  reflexivity.
+Qed.
+
+(* SortReader with the code's own arithmetic, for any spill target and any encoded sizes *)
+Theorem sort_reader_real_arithmetic : forall canary batch target (size : nat -> nat -> Z) s demands,
+  (1 <= canary)%nat -> (1 <= batch)%nat -> sfin s = SEof ->
+  Forall (fun x => (1 <= x)%nat) demands -> (length (srows s) < length demands)%nat ->
+  let o := run_sort canary batch (fun i n => real_next target (Z.of_nat batch) (size i n) n) s demands in
+  ocreate o = COk /\ final_status (oreads o) = SEof /\
+  ksorted (out_rows (oreads o)) /\ Permutation (out_rows (oreads o)) (srows s) /\
+  oleft o = 0%nat.
+Proof.
+  intros. apply sort_reader_sorted_perm; auto. apply real_oracle_ok. lia.
 Qed.
